@@ -10,7 +10,7 @@ def run(chk: Check):
     mgr_check.run_property(
         chk, "C01", "Props.C01", THEOREMS,
         model_profiles={'routing': 320, 'acks': 60},
-        oracle_flavors={'routing': 320, 'drops': 120},
+        oracle_flavors={'routing': 320, 'drops': 120, 'shared': 160},
         checkers=CHECKERS,
         assumptions=["the byte-level statement (frames written for a publish = the specification's recipients, unmodified) is decided by the correspondence and the spec oracle; the Coq theorems cover the recipient snapshot (duplicate-free, subscribed, registered, open), the generated guards and the single-recipient decision"])
 
